@@ -154,6 +154,14 @@ func (e *Enc) onClose(ci ssa.CallInstruction, c *ssa.CallCommon, ch Term) {
 // for syntactically equal terms only: a sound over-approximation that avoids an uninterpreted
 // function over mixed integer/real terms, which stalls the solvers).
 func (e *Enc) rnd(x Term) Term {
+	r := e.rnd0(x)
+	if tc, ok := e.taintOf(x); ok {
+		e.addTaint(r, tc)
+	}
+	return r
+}
+
+func (e *Enc) rnd0(x Term) Term {
 	if r, ok := e.rndConst[x.S]; ok {
 		return r
 	}
@@ -225,8 +233,10 @@ func (e *Enc) externalModNames(name string, c *ssa.CallCommon) map[string]string
 	switch name {
 	case "sort.Strings":
 		names["E$string"] = ArraySort(SInt, ArraySort(SInt, SString))
-	case "os.Setenv", "os.Unsetenv":
+	case "os.Setenv":
 		names["G$env"] = ArraySort(SString, SString)
+		names["G$envset"] = ArraySort(SString, SBool)
+	case "os.Unsetenv":
 		names["G$envset"] = ArraySort(SString, SBool)
 	}
 	return names
@@ -489,7 +499,11 @@ func (e *Enc) callExternal(ci ssa.CallInstruction, c *ssa.CallCommon, name strin
 	case "os.Setenv":
 		env := e.lookup(e.cur, "G$env", ArraySort(SString, SString))
 		set := e.lookup(e.cur, "G$envset", ArraySort(SString, SBool))
-		ok := e.fresh("setenvok", SBool)
+		// succeeds exactly for valid arguments (non-empty key without '=' or NUL, value without NUL): a
+		// fixed function of the arguments
+		e.sc.DeclareFun("setenv_ok", []string{SString, SString}, SBool)
+		ok := App(SBool, "setenv_ok", args[0], args[1])
+		e.assumed["os.Setenv succeeds or fails as a fixed function of its arguments; os.Unsetenv always succeeds (unix) (trusted)"] = true
 		e.set(e.cur, "G$env", Ite(ok, Store(env, args[0], args[1]), env))
 		e.set(e.cur, "G$envset", Ite(ok, Store(set, args[0], TTrue), set))
 		er := e.fresh("err", SIface)
@@ -497,10 +511,10 @@ func (e *Enc) callExternal(ci ssa.CallInstruction, c *ssa.CallCommon, name strin
 		return []Term{er}, nil
 	case "os.Unsetenv":
 		set := e.lookup(e.cur, "G$envset", ArraySort(SString, SBool))
-		ok := e.fresh("unsetenvok", SBool)
-		e.set(e.cur, "G$envset", Ite(ok, Store(set, args[0], TFalse), set))
+		// unix: the variable is always removed and the error is nil; the error value is left
+		// unconstrained so that the caller's error branch stays reachable in the model
+		e.set(e.cur, "G$envset", Store(set, args[0], TFalse))
 		er := e.fresh("err", SIface)
-		e.sc.Assert(Eq(ok, Eq(er, nilIface())))
 		return []Term{er}, nil
 	}
 	// default: unconstrained results; effect-free for libraries known not to write through their
